@@ -661,6 +661,21 @@ pub fn check_c10(seed: u64, i: usize) -> DefReport {
     rep
 }
 
+/// The definition with every `(?&name)` reference written out by my own inliner and no subpatterns left.
+fn inlined_twin(def: &Def) -> Option<Def> {
+    let subs = refa::resolve_subpatterns(def).ok()?;
+    let mut inl = def.clone();
+    for p in inl.pats.iter_mut() {
+        if p.kind == PatKind::Token {
+            continue;
+        }
+        let text = refa::inline_subpatterns(&refa::lit_regex_text(&p.lit), &subs).ok()?;
+        p.lit = if p.lit.bytes { vmon::spec::Lit::b(text.as_bytes()) } else { vmon::spec::Lit::s(&text) };
+    }
+    inl.subpats.clear();
+    Some(inl)
+}
+
 /// C11 (L): subpattern references == scoped textual inclusion
 pub fn check_c11(seed: u64, i: usize) -> DefReport {
     let mut rng = Rng::derive(seed ^ 0xC11, i as u64);
@@ -676,6 +691,15 @@ pub fn check_c11(seed: u64, i: usize) -> DefReport {
     }
     let a = analyze::run_generate(&def);
     let mut rep = base_report(&def, &a);
+    if def.family == "F10-greedy" {
+        if rep.accepted {
+            rep.violations.push(violation("C11", "greedy-subpattern-accepted", "an unbounded greedy dot repetition written inside a subpattern was accepted without allow_greedy although the written-out pattern is rejected", &def, None, None));
+        } else if rep.rejected {
+            rep.nontrivial = true;
+        }
+        rep.sample = Some(def_sample(&def, &a, &rep));
+        return rep;
+    }
     if def.family == "F10-leak" {
         if rep.accepted {
             rep.violations.push(violation("C11", "leaking-subpattern-accepted", "a subpattern whose source is not a regex of its own (unbalanced group) was accepted: its alternation or flags leak into the referencing pattern", &def, None, None));
@@ -691,6 +715,16 @@ pub fn check_c11(seed: u64, i: usize) -> DefReport {
             rep.violations.push(violation("C11", "undefined-reference-accepted", "definition with an undefined or forward subpattern reference was accepted", &def, None, None));
         } else {
             product_report(&def, &a, None, Some("C11"), &mut rep);
+            // textual inclusion also means: whatever the derive refuses in the written-out pattern (greedy dots, empty
+            // matches, unsupported syntax, ...) it refuses in the form that spells it through references
+            if let Some(inl) = inlined_twin(&def) {
+                let b = analyze::run_generate(&inl);
+                rep.extra_count += 1;
+                if let Outcome::Rejected(m) = &b.outcome {
+                    rep.violations.push(violation("C11", "reference-form-accepted-expanded-form-rejected", &format!("accepted with (?&name) references, but the same definition with every reference written out ({}) is rejected: {:?}",
+                        inl.pats.iter().filter(|p| p.kind != PatKind::Token).map(|p| String::from_utf8_lossy(&p.lit.data).to_string()).collect::<Vec<_>>().join(" ; "), m.iter().map(|s| s.chars().take(120).collect::<String>()).collect::<Vec<_>>()), &def, None, None));
+                }
+            }
         }
     } else if rep.rejected {
         let msgs = match &a.outcome { Outcome::Rejected(m) => m.clone(), _ => vec![] };
@@ -701,6 +735,16 @@ pub fn check_c11(seed: u64, i: usize) -> DefReport {
             }
         } else if !msgs.is_empty() && msgs.iter().all(|m| m.contains("not found")) {
             rep.violations.push(violation("C11", "defined-reference-rejected", &format!("all references are defined before use, yet: {msgs:?}"), &def, None, None));
+        } else if let Some(inl) = inlined_twin(&def) {
+            // the other direction of textual inclusion: the written-out definition is accepted, so the reference form may
+            // only be refused for a reason that concerns a subpattern as such (its own syntax, its own UTF-8 safety)
+            let b = analyze::run_generate(&inl);
+            rep.extra_count += 1;
+            let about_subpattern = |m: &String| m.to_lowercase().contains("subpattern") || m.contains("UTF-8");
+            if b.outcome == Outcome::Accepted && !msgs.iter().any(about_subpattern) {
+                rep.violations.push(violation("C11", "reference-form-rejected-expanded-form-accepted", &format!("rejected with (?&name) references ({:?}) although the same definition with every reference written out is accepted",
+                    msgs.iter().map(|s| s.chars().take(160).collect::<String>()).collect::<Vec<_>>()), &def, None, None));
+            }
         }
     }
     rep.sample = Some(def_sample(&def, &a, &rep));
